@@ -2087,6 +2087,61 @@ fn check_keyless(code: u16) -> Outcome {
     Outcome::Pass
 }
 
+// ---------------- validator: struct-level (schema) issues --------------------------------------------
+fn sl_a_le_b(p: &SlPair) -> Result<(), validator::ValidationError> {
+    if p.a > p.b { Err(validator::ValidationError::new("a_gt_b")) } else { Ok(()) }
+}
+#[derive(Deserialize, validator::Validate, Debug)]
+#[validate(schema(function = "sl_a_le_b"))]
+struct SlPair {
+    a: u32,
+    b: u32,
+}
+#[derive(Deserialize, validator::Validate, Debug)]
+struct SlRoot {
+    #[validate(nested)]
+    pair: SlPair,
+    #[serde(default)]
+    #[validate(nested)]
+    pairs: Vec<SlPair>,
+}
+/// validator files a struct-level issue under the pseudo-field `__all__`: it is located where the
+/// struct is (the position a field-level issue's parent has)
+fn check_struct_level(code: u16) -> Outcome {
+    let shape = (code % 3) as usize;
+    let lead = ((code / 3) % 3) as usize;
+    let reader = (code / 9) % 2 == 1;
+    let mut text = String::new();
+    for i in 0..lead {
+        text.push_str(&format!("# lead {i}\n"));
+    }
+    let l = lead as u64;
+    let want = match shape {
+        0 => {
+            text.push_str("pair: {a: 2, b: 1}\n");
+            (l + 1, 7)
+        }
+        1 => {
+            text.push_str("pair:\n  a: 2\n  b: 1\n");
+            (l + 2, 3)
+        }
+        _ => {
+            text.push_str("pair: {a: 1, b: 1}\npairs:\n  - {a: 1, b: 2}\n  - {a: 3, b: 1}\n");
+            (l + 4, 5)
+        }
+    };
+    let err = if reader { serde_saphyr::from_reader_validate::<_, SlRoot>(std::io::Cursor::new(text.as_bytes())).err() } else { serde_saphyr::from_str_validate::<SlRoot>(&text).err() };
+    let Some(e) = err else {
+        return Outcome::Fail(format!("a violated struct-level rule is accepted (text {text:?})"));
+    };
+    let first = e.without_snippet().to_string().lines().next().unwrap_or("").to_string();
+    let got = e.without_snippet().location().map(|l| (l.line(), l.column()));
+    if got != Some(want) {
+        return Outcome::Fail(format!("validator struct-level issue (reader {reader}): located at {got:?}, the struct is at {want:?}; message {first:?} (text {text:?})"));
+    }
+    Outcome::Pass
+}
+
 /// `n` copies of one small document, produced on the fly
 struct Repeat {
     unit: &'static [u8],
@@ -2175,7 +2230,7 @@ impl Property for C18 {
     const ID: &'static str = "C18";
     type Case = Case;
     fn rule() -> String {
-        "cases = (validation crate, entry point, options for the *_with_options_* entry points, layout, 1 document or a stream of 1-4 documents); a document is a description of a value of the fixed type family Root{camelCase: shortName, maxCount, type (raw identifier), abC, aBc, netCfg: Net{kebab-case: host-name, port-no, back-ups: [Item]}, items: [Item], byName: BTreeMap<String, Item>}, Item{label, weight, tags: [String]} giving for every leaf its value (satisfying or violating its length/range constraint) and how it is supplied (directly, directly with an anchor, alias to a scalar anchored in a pool, through `<<: *base`, overriding a merged value, through a merge whose base entry is an alias, through a merged mapping written in place - as a scalar, as an alias inside it, or inside a container that it supplies), whether an Item is used through an alias to a whole anchored mapping, block/flow style per container, comments with multi-byte text, CRLF, indentation, document markers. The harness renders the YAML and records the line/column of every value token. Oracle: see report-C18.md (result == plain entry point when nothing is violated; otherwise the reported path set == violated constraints evaluated on the plain value, use site and definition site of every issue == ground truth, observed through a recording Localizer in plain and snippet rendering and through Error::location()/locations(); every failing document of a stream is reported). Non-trivial: >= 1 violated constraint reached through an alias, a merge, a renamed field (or below one) or a sequence index. distinct = distinct case descriptions. Sub-check defaulted-field: a violated field filled by its serde default (nesting depth 1-3) is named by the plain and by the miette rendering. Sub-check keyless-components: garde issues whose path has a component without a key (inside an Option) are located at the value and printed without an empty segment. Sub-check long-stream: 260 MiB of small valid documents through read and through the validating iterator of each crate give the same items (no input-size cap in either).".into()
+        "cases = (validation crate, entry point, options for the *_with_options_* entry points, layout, 1 document or a stream of 1-4 documents); a document is a description of a value of the fixed type family Root{camelCase: shortName, maxCount, type (raw identifier), abC, aBc, netCfg: Net{kebab-case: host-name, port-no, back-ups: [Item]}, items: [Item], byName: BTreeMap<String, Item>}, Item{label, weight, tags: [String]} giving for every leaf its value (satisfying or violating its length/range constraint) and how it is supplied (directly, directly with an anchor, alias to a scalar anchored in a pool, through `<<: *base`, overriding a merged value, through a merge whose base entry is an alias, through a merged mapping written in place - as a scalar, as an alias inside it, or inside a container that it supplies), whether an Item is used through an alias to a whole anchored mapping, block/flow style per container, comments with multi-byte text, CRLF, indentation, document markers. The harness renders the YAML and records the line/column of every value token. Oracle: see report-C18.md (result == plain entry point when nothing is violated; otherwise the reported path set == violated constraints evaluated on the plain value, use site and definition site of every issue == ground truth, observed through a recording Localizer in plain and snippet rendering and through Error::location()/locations(); every failing document of a stream is reported). Non-trivial: >= 1 violated constraint reached through an alias, a merge, a renamed field (or below one) or a sequence index. distinct = distinct case descriptions. Sub-check defaulted-field: a violated field filled by its serde default (nesting depth 1-3) is named by the plain and by the miette rendering. Sub-check keyless-components: garde issues whose path has a component without a key (inside an Option) are located at the value and printed without an empty segment. Sub-check struct-level: a validator schema rule on a nested struct is located at the struct. Sub-check long-stream: 260 MiB of small valid documents through read and through the validating iterator of each crate give the same items (no input-size cap in either).".into()
     }
     fn assumptions() -> Vec<String> {
         vec![
@@ -2190,6 +2245,9 @@ impl Property for C18 {
     fn check(c: &Case) -> Outcome {
         if c.long_mib > 0 {
             return check_long_stream(c.krate, c.long_mib);
+        }
+        if c.root_seq > 300 {
+            return check_struct_level(c.root_seq - 301);
         }
         if c.root_seq > 200 {
             return check_keyless(c.root_seq - 201);
@@ -2289,6 +2347,14 @@ impl Property for C18 {
             }
         }
         ctx.subspace("garde inner rules on Option / Option<Vec> / Vec<Option> x 0-2 leading lines x str / reader", 18, true);
+        // --- validator: struct-level (schema) issues
+        for code in 0..18u16 {
+            if ctx.mine(17 + code as u64) {
+                let c = Case { krate: Krate::Validator, ep: Ep::Str, opt: OptV::Default, layout: base_layout(), docs: vec![], strict: true, long_mib: 0, root_seq: 301 + code };
+                ctx.case("struct-level", &c, true);
+            }
+        }
+        ctx.subspace("validator schema rule on a nested struct (flow, block, sequence element) x 0-2 leading lines x str / reader", 18, true);
         let classes: RefCell<BTreeMap<String, u64>> = RefCell::new(BTreeMap::new());
         // --- enumerated: one violated leaf of a fixed document x supply x entry point x crate x style
         let base = base_doc();
